@@ -1,12 +1,66 @@
-from .core import BASE_TRUST
+import re
+
+from .core import BASE_TRUST, LEAN, Problem
 
 META = {
     "category": "proof",
-    "text": "Lean 4 theorems: each parallel shape of lib/query (slot-wise Run callbacks, per-worker lists concatenated in worker order for filter/join, per-worker key maps merged for GROUP BY) equals a sequential specification for EVERY cutting of the record range into contiguous chunks, hence is independent of --cpu and of the schedule; the real cutting function RecordRange is regenerated from the source and proved to tile [0,len) in order (C13's recordRange_tiles); the slot bookkeeping that decides the worker number (AssignRoutineNumber, Release, Done, NewGoroutineTaskManager's literal, Flags.SetCPU) is regenerated too and proved: 1 <= n <= --cpu in every reachable state, shared count = sum of outstanding slots over every history (never negative, nothing leaks), single worker below the threshold, and end to end the assigned workers' ranges tile [0,len) (assigned_ranges_tile). Tied to /repo by (a) the regenerated definitions + a model/impl comparison of worker numbers, ranges, slot histories (new/done sequences) and SetCPU, (b) a direct law check on the implementation: the same program run at --cpu 1,2,3,4,8,16, twice each, on tables of 80k-1/80k/80k+1 rows must give identical result rows, order and written file bytes (22+ query shapes incl. joins driven by the short and by the long table, multi-analytic queries, user-defined aggregates / functions; 6 DML programs); (c) the clause pipeline over a formula table of 20-40k rows (every stage cut: WHERE, GROUP BY, HAVING, DISTINCT, ORDER BY, OFFSET, LIMIT rows / PERCENT / WITH TIES / FETCH, alone, combined and through derived tables) at every --cpu value twice against BOTH Model/Pipeline.runImpl (op c12.pipe: the driver rebuilds the table from four numbers and runs the same stage list under cuts of its own) and the slices the harness takes from the table itself (law stage_result_differs_from_table_slice); (d) session flags whose handling keeps state or caches (--datetime-format lists incl. mutually ambiguous formats, --timezone, --strict-equal, --ansi-quotes, --without-null, @@ flags SET / ADDed / REMOVEd between the statements) over a table of dates in many spellings: value.StrToTime under a format list against Model/ParseTimeUser (op c12.strtotime: formats in the given order, first match wins, then the built-in spellings), every program at every --cpu value twice, and law value_depends_on_other_rows - every row of a row-wise select list has the value the same program gives a table of that row ALONE in a fresh session (single rows taken in two orders: value_depends_on_history), GROUP BY over a converted key agrees with the grouping made from the single-row keys - a reference that does not depend on the evaluation order, valid at --cpu 1 too",
+    "text": "Lean 4 theorems: each parallel shape of lib/query (slot-wise Run callbacks, per-worker lists concatenated in worker order for filter/join, per-worker key maps merged for GROUP BY) equals a sequential specification for EVERY cutting of the record range into contiguous chunks, hence is independent of --cpu and of the schedule; the real cutting function RecordRange is regenerated from the source and proved to tile [0,len) in order (C13's recordRange_tiles); the slot bookkeeping that decides the worker number (AssignRoutineNumber, Release, Done, NewGoroutineTaskManager's literal, Flags.SetCPU) is regenerated too and proved: 1 <= n <= --cpu in every reachable state, shared count = sum of outstanding slots over every history (never negative, nothing leaks), single worker below the threshold, and end to end the assigned workers' ranges tile [0,len) (assigned_ranges_tile). Tied to /repo by (a) the regenerated definitions + a model/impl comparison of worker numbers, ranges, slot histories (new/done sequences) and SetCPU, (b) a direct law check on the implementation: the same program run at --cpu 1,2,3,4,8,16, twice each, on tables of 80k-1/80k/80k+1 rows must give identical result rows, order and written file bytes (22+ query shapes incl. joins driven by the short and by the long table, multi-analytic queries, user-defined aggregates / functions; 6 DML programs); (c) the clause pipeline over a formula table of 20-40k rows (every stage cut: WHERE, GROUP BY, HAVING, DISTINCT, ORDER BY, OFFSET, LIMIT rows / PERCENT / WITH TIES / FETCH, alone, combined and through derived tables) at every --cpu value twice against BOTH Model/Pipeline.runImpl (op c12.pipe: the driver rebuilds the table from four numbers and runs the same stage list under cuts of its own) and the slices the harness takes from the table itself (law stage_result_differs_from_table_slice); (d) session flags whose handling keeps state or caches (--datetime-format lists incl. mutually ambiguous formats, --timezone, --strict-equal, --ansi-quotes, --without-null, @@ flags SET / ADDed / REMOVEd between the statements) over a table of dates in many spellings: value.StrToTime under a format list against Model/ParseTimeUser (op c12.strtotime: formats in the given order, first match wins, then the built-in spellings), every program at every --cpu value twice, and law value_depends_on_other_rows - every row of a row-wise select list has the value the same program gives a table of that row ALONE in a fresh session (single rows taken in two orders: value_depends_on_history), GROUP BY over a converted key agrees with the grouping made from the single-row keys - a reference that does not depend on the evaluation order, valid at --cpu 1 too; (e) THE STEP FROM THE GO CLOSURES TO THE SHAPES IS REGENERATED AND AN OBLIGATION (extract/shapefacts, go/ast + go/types, fails closed): every fan-out of lib/query to goroutines (GoroutineTaskManager.Run callbacks, EvaluateSequentially callbacks, `go f(i)` closures, the two drivers, the producer / consumer pairs of the loaders; any other `go` statement makes the extractor fail) and, for every variable a worker shares and WRITES, the class of the write (slot = indexed by the own record index, slotAffine / slotVia, perWorker = indexed by the worker number, singleWriter, role, chan, guardedAppend / Assign / MapInsert / Count under a mutex, atomic, pool, syncMap, extCall, other; local aliases, methods that write through their receiver and captured closures are followed), how the per-worker pieces are used after the join, reads of a slot-written variable at a foreign index, the text of MergeRecordSetList and of the two driver loops, every range over a map in lib/query, which scope constructor every worker calls and where those constructors take the records of the new scope from (with C08's extract/copyfacts: gen_worker_scopes_have_own_caches - the FieldIndexCache of a worker's scope is a copy whose map and both slices are newly made). Model/Shapes gives each class its meaning over ANY scheduler interleaving; Props/C12Shapes proves every meaning but the ordered one independent of the schedule and of the cut (by reduction to the shape theorems), proves that a list appended to under a mutex IS the schedule, and kernel-evaluates gen_worker_shapes_ok over the regenerated facts with a reviewed, pinned exception table (13 entries, each with the reason why the order cannot reach a result): a NEW guarded append / map insert / atomic / pool / sync.Map, a write at a foreign index, a new map range, a changed merge or driver loop is a broken obligation whose replay names the fact and its source position",
     "design_ref": "DESIGN.md section 5, C12",
-    "note": "a WHOLE query: Model/Pipeline.lean composes the shapes into the clause pipeline of a SELECT (WHERE, GROUP BY, HAVING, select list, ORDER BY, OFFSET, LIMIT, Fix) with an arbitrary cut at every stage; Props/C12Pipe: pipeline_eq_spec / pipeline_indep_of_cuts (any two runs, whatever cuts each stage got, return the same rows in the same order), the stage order and the primitive under every View method regenerated from query.go / view.go (extract/pipefacts: gen_clause_order, gen_stage_shapes); OFFSET / LIMIT as concrete stages (offsetStage, limitStage, limitPercentStage, limitTiesStage; pipeline_offset_limit_spec: = ((rows.filter p).drop n).take k under every cut) and the in-place move of View.Offset as a write schedule (Model/Shift: shift_sequential_spec - one worker in ascending order leaves exactly drop n; shift_two_workers_counterexample - an interleaving of two chunks loses a row, which is why gen_offset_shift_is_ascending_loop pins the regenerated loop). Props/C12Time: value.StrToTime with the process-wide format cache threaded through as state (Model/ParseTimeUser) returns what the cache-free function returns for every reachable cache (strToTime_state_indep), so a column is a map (column_is_map), a row's value does not depend on the rows around it nor on what was converted before (row_value_indep_of_other_rows, column_order_irrelevant), the first fitting format wins (first_fitting_format_wins); the loop over the formats, the package-level state StrToTime touches and the fields / Get of the cache are regenerated from lib/value/conv.go (extract/timefacts: gen_user_format_loop, gen_strtotime_state, gen_format_cache_is_memo). trusted: Lean kernel; harness; the Go scheduler itself is outside the model, which is why the chunking/schedule is universally quantified in the theorems rather than sampled; the step from the Go closures to the three shapes is by reading (C13's extractor classifies every worker closure)",
-    "technique": "Lean 4 machine-checked proof (chunk-independence / refinement to a sequential spec) + regenerated RecordRange and slot bookkeeping + multi---cpu differential runs of the real implementation",
+    "note": "a WHOLE query: Model/Pipeline.lean composes the shapes into the clause pipeline of a SELECT (WHERE, GROUP BY, HAVING, select list, ORDER BY, OFFSET, LIMIT, Fix) with an arbitrary cut at every stage; Props/C12Pipe: pipeline_eq_spec / pipeline_indep_of_cuts (any two runs, whatever cuts each stage got, return the same rows in the same order), the stage order and the primitive under every View method regenerated from query.go / view.go (extract/pipefacts: gen_clause_order, gen_stage_shapes); OFFSET / LIMIT as concrete stages (offsetStage, limitStage, limitPercentStage, limitTiesStage; pipeline_offset_limit_spec: = ((rows.filter p).drop n).take k under every cut) and the in-place move of View.Offset as a write schedule (Model/Shift: shift_sequential_spec - one worker in ascending order leaves exactly drop n; shift_two_workers_counterexample - an interleaving of two chunks loses a row, which is why gen_offset_shift_is_ascending_loop pins the regenerated loop). Props/C12Time: value.StrToTime with the process-wide format cache threaded through as state (Model/ParseTimeUser) returns what the cache-free function returns for every reachable cache (strToTime_state_indep), so a column is a map (column_is_map), a row's value does not depend on the rows around it nor on what was converted before (row_value_indep_of_other_rows, column_order_irrelevant), the first fitting format wins (first_fitting_format_wins); the loop over the formats, the package-level state StrToTime touches and the fields / Get of the cache are regenerated from lib/value/conv.go (extract/timefacts: gen_user_format_loop, gen_strtotime_state, gen_format_cache_is_memo). trusted: Lean kernel; harness; the Go scheduler itself is outside the model, which is why the chunking/schedule is universally quantified in the theorems rather than sampled; Props/C12Shapes (worker shapes as an obligation): Interleave = every trace a scheduler can produce from the workers' index lists; slot_indep_of_cut, run_fills_slots (n workers over the real RecordRange under any schedule fill exactly slots 0..len-1), pieces_are_chunks / pieces_indep_of_cut with filter_ / join_ / group_pieces_indep (reduction to filter_chunks_indep, join_chunks_indep, group_indep_of_cut), accum_indep_of_cut (+ counter / flag set / single writer commute), error_flag_indep_of_cut and first_error_value_depends_on_schedule, role_indep_of_schedule, sorted_append_indep_of_cut, guarded_append_depends_on_schedule, fanout_schedule_independent (a fan-out all of whose facts are of independent kinds has the same shared state after the join for every schedule and every cut), gen_worker_shapes_ok, gen_reviewed_exceptions_exact, gen_pieces_combined_in_worker_order, gen_no_cross_reads, gen_worker_scopes_have_own_caches, gen_driver_loops, gen_workers_loop_over_own_range, gen_merge_record_set_list + merge_model_is_flatten, gen_map_ranges_are_the_reviewed_ones. still by reading: that a statement of a given class behaves as the class's meaning says (one assignment at a time, no longer a whole closure), the 13 reviewed reasons, that the VALUE a worker computes is a function of its own index (writes made inside callees such as Evaluate are C13's interprocedural facts and the multi---cpu runs), the extractor itself",
+    "technique": "Lean 4 machine-checked proof (chunk-independence / refinement to a sequential spec) + regenerated RecordRange and slot bookkeeping + worker-shape facts regenerated from the closures of lib/query and kernel-evaluated against a pinned exception table + multi---cpu differential runs of the real implementation",
 }
+
+
+ALWAYS_ORDERED = {"syncMap", "extCall", "other", "noOwnLoop"}
+NEEDS_REVIEW = {"slotAffine", "slotVia", "guardedAppend", "guardedAssign", "guardedMapInsert", "atomic", "pool"}
+
+
+def _tuples(text, name):
+    m = re.search(r"^def %s :[^\n]*:= \[\n(.*?)^\]" % name, text, re.S | re.M)
+    return [tuple(re.findall(r'"((?:[^"\\]|\\.)*)"', ln)) for ln in (m.group(1).splitlines() if m else []) if ln.strip().startswith("(")]
+
+
+def explain_shapes(run):
+    """when one of the shape obligations of Props/C12Shapes is broken: name the fact that no longer checks, with its
+    position in the source (the positions are in lists no theorem mentions)"""
+    broken = {p.name.split(".")[-1] for p in run.problems if p.kind == "build"}
+    if not broken & {"gen_worker_shapes_ok", "gen_reviewed_exceptions_exact", "gen_no_cross_reads", "gen_map_ranges_are_the_reviewed_ones",
+                     "gen_pieces_combined_in_worker_order", "gen_workers_loop_over_own_range", "gen_merge_record_set_list", "gen_driver_loops",
+                     "gen_fanout_kinds_known", "gen_worker_scopes_have_own_caches"}:
+        return
+    gen = (LEAN / "Csvq/Gen/ShapeFacts.lean").read_text()
+    props = (LEAN / "Csvq/Props/C12Shapes.lean").read_text()  # (the scope-copy obligation is in Props/C12ScopeCopies.lean)
+    facts = _tuples(gen, "workerFacts")
+    sites = {}
+    for ln in gen.splitlines():
+        m = re.match(r'\s*\("([^"]*)", \[(.*)\]\),?$', ln)
+        if m:
+            sites.setdefault(m.group(1), re.findall(r'"((?:[^"\\]|\\.)*)"', m.group(2)))
+    reviewed = set(re.findall(r'^\s*\("([^"]*)", "([^"]*)", "([^"]*)", \.\w+\)', props.split("def reviewed :")[1].split("\ntheorem")[0], re.M))
+    seen = set()
+    for f in facts:
+        fn, fan, var, kind, how, via = f
+        bad = kind in ALWAYS_ORDERED or (kind == "chan" and how != "singleSender") or (kind in NEEDS_REVIEW and (fn, var, kind) not in reviewed)
+        if bad:
+            run.problems.append(Problem("build", "shape-fact", {"no_longer_checks": "a worker of %s writes the shared variable %s in a way whose result depends on the schedule" % (fn, var),
+                                        "function": fn, "fan_out": fan, "variable": var, "class": kind, "operation": how, "through": via,
+                                        "where": sites.get("%s %s %s" % (fn, var, kind), [])[:4]}, signature="shape:%s:%s:%s" % (fn, var, kind)))
+        seen.add((fn, var, kind))
+    for r in sorted(reviewed - seen):
+        run.problems.append(Problem("build", "shape-fact", {"no_longer_checks": "the reviewed exception %s / %s / %s is no longer in the source: remove it from the table" % r}, signature="shape-gone:%s:%s:%s" % r))
+    for c in _tuples(gen, "crossReads"):
+        run.problems.append(Problem("build", "shape-fact", {"no_longer_checks": "a worker of %s reads %s, which the workers write slot-wise, at an index that is not its own (%s)" % (c[0], c[2], c[3]),
+                                    "where": re.findall(r'"([^"]*)"', gen.split("def crossReadSites")[1].split("\n")[0])[:4]}, signature="shape-cross:%s:%s" % (c[0], c[2])))
+    if "gen_worker_scopes_have_own_caches" in broken:
+        cf = (LEAN / "Csvq/Gen/CopyFacts.lean").read_text()
+        for ln in cf.splitlines():
+            m = re.search(r'⟨"(FieldIndexCache\.Copy|ReferenceRecord\.copyForChildScope)", "[^"]*", "([^"]*)", \d+, "[^"]*", \[("[^"]*")\], \(\.(same|other) "([^"]*)"\)', ln)
+            if m and m.group(1) == "FieldIndexCache.Copy":
+                run.problems.append(Problem("build", "shape-fact", {"no_longer_checks": "the copy of a field-index cache that every worker's scope gets takes its %s over from the original (%s): workers append into one backing array" % (m.group(3), m.group(5)), "where": m.group(2)}, signature="shape-cache:" + m.group(3)))
+    ref = {tuple(re.findall(r'"([^"]*)"', ln)[:2]) for ln in props.split("def reviewedMapRanges")[1].split("\n]")[0].splitlines() if ln.strip().startswith("(")}
+    for m in _tuples(gen, "mapRanges"):
+        if m not in ref:
+            run.problems.append(Problem("build", "shape-fact", {"no_longer_checks": "%s ranges over the map %s: Go's iteration order is random, the range is not in the reviewed list" % m}, signature="shape-maprange:%s:%s" % m))
 
 
 def run(run):
@@ -15,7 +69,18 @@ def run(run):
     run.regen("routine", ["go", "run", "-C", "extract/parfacts", ".", "routine"], "Csvq/Gen/RoutineNumber.lean")
     run.regen("pipefacts", ["go", "run", "-C", "extract/pipefacts", "."], "Csvq/Gen/PipeFacts.lean")
     run.regen("timefacts", ["go", "run", "-C", "extract/timefacts", "."], "Csvq/Gen/TimeFacts.lean")
-    run.obligations_for(["Csvq.Props.C12", "Csvq.Props.C12Pipe", "Csvq.Props.C12Time"])
+    run.regen("copyfacts", ["go", "run", "-C", "extract/copyfacts", "."], "Csvq/Gen/CopyFacts.lean")  # C08's generator, read here
+    shapes = run.regen("shapefacts", ["go", "run", "-C", "extract/shapefacts", "."], "Csvq/Gen/ShapeFacts.lean")
+    # the shape obligations are built module by module: when a regenerated fact breaks one of them, the theorems of the
+    # other modules (which do not import it) are still checked and counted
+    names = []
+    for group in (["Csvq.Props.C12Shapes"], ["Csvq.Props.C12ScopeCopies"], ["Csvq.Props.C12", "Csvq.Props.C12Pipe", "Csvq.Props.C12Time"]):
+        run.obligations_for(group)
+        names += run.cov["obligation_names"]
+    run.cov["obligation_names"] = names
+    if shapes:
+        explain_shapes(run)
+    # the multi---cpu search below runs in every case: when a shape obligation is broken it looks for the input
     run.stream("c12", 300 if q else 3000, timeout=3000)
     if not q:
         for k in range(1, 3):
